@@ -3,12 +3,16 @@
 package scan
 
 import (
+	"bytes"
+	"crypto/sha1"
 	"encoding/json"
 	"fmt"
 	"os"
 	"path/filepath"
 	"strconv"
 	"strings"
+	"sync"
+	"sync/atomic"
 	"syscall"
 	"testing"
 
@@ -92,6 +96,8 @@ var c12Leaves = []leaf{
 	{"l-slashes", mkLink(plain, "t//u/")}, // empty components, stays inside at every depth
 	{"l-bs", mkLink(plain, `t\u`)},
 	{"l-colon", mkLink(plain, "c:t")},
+	{"l-128", mkLink(plain, strings.Repeat("t", 128))}, // exactly fills the initial readlink buffer
+	{"l-129", mkLink(plain, strings.Repeat("t", 129))},
 	{"l-247", mkLink(plain, strings.Repeat("t", 247))},
 	{"l-248", mkLink(plain, strings.Repeat("t", 248))},
 	{"fifo", func(dir, slot string) error { return mkfifo(filepath.Join(dir, slot)) }},
@@ -136,6 +142,9 @@ type c12case struct {
 	Sym      int
 	Perm     int
 	Patterns bool // ignore pattern "ig-*" active
+	// Fault, when set, makes this a case of the mid-file fault leg (Tree, Sym,
+	// Perm and Patterns are then unused: fixed tree, portable/portable).
+	Fault *c12fault `json:",omitempty"`
 }
 
 func (tr c12tree) hasIgnoredName() bool {
@@ -202,13 +211,138 @@ func installC12Hook() {
 				return syscall.EACCES
 			}
 		case "read":
-			if p, err := os.Readlink("/proc/self/fd/" + strconv.Itoa(fd)); err == nil &&
-				strings.HasPrefix(filepath.Base(p), readFailPrefix) {
+			p, err := os.Readlink("/proc/self/fd/" + strconv.Itoa(fd))
+			if err != nil {
+				return nil
+			}
+			if strings.HasPrefix(filepath.Base(p), readFailPrefix) {
 				return syscall.EIO
+			}
+			if v, ok := midFaults.Load(p); ok {
+				mf := v.(*midFault)
+				if n := int(mf.reads.Add(1)) - 1; n == mf.k {
+					mf.fired.Store(true)
+					if mf.action == "eio" {
+						return syscall.EIO
+					}
+					// "grow": the file gets one more byte while it is being hashed.
+					if f, err := os.OpenFile(p, os.O_APPEND|os.O_WRONLY, 0); err == nil {
+						f.Write([]byte{'!'})
+						f.Close()
+					}
+				}
 			}
 		}
 		return nil
 	})
+}
+
+// midFault is a fault armed on the k-th read (k = 0, 1, ...) of one file,
+// identified by its absolute path (the read hook point carries the file
+// descriptor, which /proc/self/fd resolves).
+type midFault struct {
+	k      int
+	action string // "eio": that read fails with EIO; "grow": a byte is appended to the file just before it
+	reads  atomic.Int32
+	fired  atomic.Bool
+}
+
+var midFaults sync.Map // absolute path -> *midFault
+
+// c12fault describes one case of the mid-file fault leg: a fixed tree of six
+// regular files (two levels), whose names are rotated by Rot so that the
+// directory order of the faulted file relative to the others varies; the file
+// in role Target gets the fault at read ordinal K.
+type c12fault struct {
+	Rot    int
+	Target string // role: big40 | big100 | sub40
+	K      int
+	Action string // eio | grow
+}
+
+var faultNames = []string{"p", "q", "r", "s", "t", "w"}
+
+// faultRoles lists (role, directory, size); names are assigned by rotation.
+var faultRoles = []struct {
+	role string
+	dir  string
+	size int
+}{
+	{"one", "", 1}, {"big40", "", 40000}, {"big100", "", 100000}, {"five", "", 5}, {"sub40", "d", 40000}, {"three", "d", 3},
+}
+
+// materializeFaultTree builds the tree and returns the root-relative path of each role.
+func materializeFaultTree(root string, rot int) (map[string]string, error) {
+	if err := os.MkdirAll(filepath.Join(root, "d"), 0o700); err != nil {
+		return nil, err
+	}
+	paths := map[string]string{}
+	for i, fr := range faultRoles {
+		rel := faultNames[(i+rot)%len(faultNames)]
+		if fr.dir != "" {
+			rel = fr.dir + "/" + rel
+		}
+		if err := os.WriteFile(filepath.Join(root, rel), fileBytes(fr.size, fr.role), 0o600); err != nil {
+			return nil, err
+		}
+		paths[fr.role] = rel
+	}
+	return paths, nil
+}
+
+// runC12Fault runs one mid-file fault case in a fresh directory: the faulted
+// file must be a problem (eio) and EVERY OTHER entry, digests included, must
+// still match the independent walk; so must the digests in the returned cache.
+func runC12Fault(t testing.TB, f c12fault, fsExec bool) (what string, fired bool, err error) {
+	base, err := os.MkdirTemp("", "c12f")
+	if err != nil {
+		return "", false, err
+	}
+	defer os.RemoveAll(base)
+	if base, err = filepath.EvalSymlinks(base); err != nil {
+		return "", false, err
+	}
+	root := filepath.Join(base, "root")
+	paths, err := materializeFaultTree(root, f.Rot)
+	if err != nil {
+		return "", false, err
+	}
+	rel := paths[f.Target]
+	mf := &midFault{k: f.K, action: f.Action}
+	abs := filepath.Join(root, rel)
+	midFaults.Store(abs, mf)
+	snap, cache, _, serr := doScan(root, nil, nil, nil, newIgnorer(t, nil), nil, portableModes)
+	midFaults.Delete(abs)
+	if !mf.fired.Load() {
+		return "", false, nil
+	}
+	if serr != nil {
+		return "scan failed: " + serr.Error(), true, nil
+	}
+	o := walkOpts{m: portableModes, fsExec: fsExec, faulted: map[string]string{rel: "problem"}}
+	if f.Action == "grow" {
+		o.faulted[rel] = "any"
+		o.skipWalkCounts = true
+	}
+	if d := checkSnapshot(root, snap, o); d != "" {
+		return fmt.Sprintf("with %s at read %d of %s: %s", f.Action, f.K, rel, d), true, nil
+	}
+	// The digest cache returned alongside must carry the same (right) digests.
+	for role, p := range paths {
+		if p == rel {
+			continue
+		}
+		data, rerr := os.ReadFile(filepath.Join(root, p))
+		if rerr != nil {
+			return "", true, rerr
+		}
+		sum := sha1.Sum(data)
+		ce := cache.Entries[p]
+		if ce == nil || !bytes.Equal(ce.Digest, sum[:]) {
+			return fmt.Sprintf("with %s at read %d of %s: returned digest cache entry for %s (%s) is %v, expected digest %x", f.Action, f.K, rel, p, role, ce, sum), true, nil
+		}
+	}
+	return "", true, nil
 }
 
 // classes lists the observed entry classes of a snapshot (vacuity guard).
@@ -262,6 +396,16 @@ func TestC12(t *testing.T) {
 	if raw := vr.ReplayCase(); raw != nil {
 		var c c12case
 		must(t, json.Unmarshal(raw, &c))
+		if c.Fault != nil {
+			what, fired, err := runC12Fault(t, *c.Fault, fsExec)
+			must(t, err)
+			t.Logf("replay %s: fault fired=%v verdict %q", vr.J(c), fired, what)
+			r.Case(vr.J(c), fired)
+			if what != "" {
+				r.Violate(vr.J(c), what, c, nil)
+			}
+			return
+		}
 		root := filepath.Join(scratch, "root")
 		must(t, c.Tree.materialize(root))
 		what, snap := runC12(t, root, c, fsExec)
@@ -287,7 +431,7 @@ func TestC12(t *testing.T) {
 	if vr.Thorough() {
 		shape = "every triple of leaves in slots (a, d/x, d/e/y) and every pair in slots (a,b)"
 	}
-	r.Rule(fmt.Sprintf("%s over a %d-leaf alphabet %v, plus the root itself as a regular file of each file kind and a missing root; each tree is created on disk and scanned cold by core.Scan under 3 symbolic link modes x 2 permissions modes (and again with the ignore pattern \"ig-*\" when it contains an ig- name). Non-trivial = at least one slot is occupied; distinct by (tree, modes, patterns).", shape, n, ids))
+	r.Rule(fmt.Sprintf("%s over a %d-leaf alphabet %v, plus the root itself as a regular file of each file kind and a missing root; each tree is created on disk and scanned cold by core.Scan under 3 symbolic link modes x 2 permissions modes (and again with the ignore pattern \"ig-*\" when it contains an ig- name). Before that, the mid-file fault leg: a fixed tree of six regular files (1..100 000 bytes, two levels) under each of 6 name rotations, each file > 32 KiB in turn faulted at every read ordinal k (EIO on that read, or one byte appended to the file just before it), portable/portable: the faulted file must be problematic (EIO) and every other entry and every returned digest-cache entry must match the walk exactly. Non-trivial = at least one slot is occupied / the fault fired; distinct by (tree, modes, patterns) / (rotation, target, k, action).", shape, n, ids))
 	r.Assume("Linux/ext4 scratch directory, probe mode \"probe\"; Unicode-decomposing filesystems are not available here",
 		"running as root: unreadable content is produced by verifhook-injected EACCES on openat / readlinkat and EIO on read, keyed by name prefix",
 		"in permissions mode manual a snapshot reports no executability (documented meaning of the mode)",
@@ -310,7 +454,7 @@ func TestC12(t *testing.T) {
 					if pat && !tr.hasIgnoredName() {
 						continue
 					}
-					c := c12case{tr, int(sym), int(perm), pat}
+					c := c12case{tr, int(sym), int(perm), pat, nil}
 					what, snap := runC12(t, root, c, fsExec)
 					l.Case(vr.J(c), !tr.trivial())
 					if what != "" {
@@ -331,6 +475,39 @@ func TestC12(t *testing.T) {
 		}
 		must(t, os.RemoveAll(base))
 	}
+
+	// ---- mid-file fault leg (run first so that no budget can cut it) ----
+	// A fixed tree of six regular files (1, 5, 3, 40 000, 40 000 and 100 000
+	// bytes; two of them in d/) under every rotation of their names; each file
+	// larger than the 32 KiB copy buffer in turn gets EIO at, or a concurrent
+	// one-byte append just before, its k-th read for every k until the fault
+	// no longer fires.
+	for rot := 0; rot < len(faultNames); rot++ {
+		for _, target := range []string{"big40", "big100", "sub40"} {
+			for _, action := range []string{"eio", "grow"} {
+				for k := 0; ; k++ {
+					f := c12fault{rot, target, k, action}
+					c := c12case{Fault: &f}
+					what, fired, err := runC12Fault(t, f, fsExec)
+					must(t, err)
+					r.Case(vr.J(c), fired)
+					if !fired {
+						break
+					}
+					if what != "" {
+						r.Outcome("VIOLATION")
+						r.Violate(vr.J(c), what, c, func() bool {
+							w, _, err := runC12Fault(t, f, fsExec)
+							return err == nil && w != ""
+						})
+					} else {
+						r.Outcome("midfile-" + action + "-others-exact")
+					}
+				}
+			}
+		}
+	}
+	r.Sample(c12case{Fault: &c12fault{2, "big100", 1, "eio"}})
 
 	vr.Parallel(n, func(i int) {
 		l := r.Local()
@@ -364,7 +541,7 @@ func TestC12(t *testing.T) {
 			evalTree(l, dir, &serial, c12tree{A: "-", B: "-", X: "-", Y: "-", Missing: true})
 		}
 	})
-	r.Sample(c12case{c12tree{A: "fx", B: "-", X: "l-up", Y: "bad-f"}, 2, 1, false})
-	r.Sample(c12case{c12tree{A: "fifo", B: "tmp-d", X: "-", Y: "-"}, 3, 2, false})
-	r.Sample(c12case{c12tree{A: "ig-d", B: "-", X: "-", Y: "noread-f"}, 1, 1, true})
+	r.Sample(c12case{c12tree{A: "fx", B: "-", X: "l-up", Y: "bad-f"}, 2, 1, false, nil})
+	r.Sample(c12case{c12tree{A: "fifo", B: "tmp-d", X: "-", Y: "-"}, 3, 2, false, nil})
+	r.Sample(c12case{c12tree{A: "ig-d", B: "-", X: "-", Y: "noread-f"}, 1, 1, true, nil})
 }
